@@ -216,6 +216,11 @@ theorem T9_seglog_frame_roundtrip (f : SegFile) (hrs : ∀ r ∈ f.recs, RecOK r
     (ht : ∀ r k, f.torn = some (r, k) → RecOK r ∧ k < r.size) : parseFile (bytesOf f) = framesOf f :=
   parseFile_bytesOf f hrs ht
 
+/-- the checksum of a file printed in every directory listing of the differential run (`fnvFile`, computed record by
+record without materialising the zero padding) is FNV-1a 64 of the file's bytes `bytesOf f` — what the harness
+computes over the real file -/
+theorem T9_seglog_listing_checksum (f : SegFile) : fnvFile f = fnvBytes fnvInit (bytesOf f) := fnvFile_eq f
+
 example : parseFile (bytesOf ⟨[exRec 1], some (exRec 2, 13)⟩) = ([.full (exRec 1), .full (exRec 2)], .eof) := by
   rw [T9_seglog_frame_roundtrip _ (by intro r hr; simp at hr; subst hr; exact ⟨by decide, by decide⟩)
     (by intro r k h; simp at h; obtain ⟨rfl, rfl⟩ := h; exact ⟨⟨by decide, by decide⟩, by decide⟩)]
